@@ -45,6 +45,7 @@ func appendedElem(cl *ssa.Call) (ssa.Value, ssa.Value) {
 }
 
 func checkC07(c *Ctx) {
+	e1CheckConstants(c, "C07-K7", []string{"dhcpv4.", "iana.Arch", "iana.HWType"}, 200)
 	r := c.R
 	r.Decides = append(r.Decides,
 		"K1 map-order independence: in the closure of the DHCPv4 encoders and printers every range over a map only collects keys into a slice that is sorted before any other use, sets flags, or fills another map",
@@ -434,4 +435,117 @@ func c07Pad(c *Ctx) {
 		}
 		r.Check(!inCycle(endW.Block()), "C07-K3", key("exactly one End"), c.P.ipos(endW), "End write not in a loop", "End can be written more than once")
 	}
+}
+
+// sortedKeysComplete: every key of the option map is collected. In the map loop of sortedKeys the only
+// edges that may bypass the collecting append are the true-edges of `key == 82` and `key == 255`
+// (those two codes are re-appended after the sort, which K2 checks). Any other way round the append —
+// a filter on the value, on another key, a counter — drops options from the encoding.
+func sortedKeysComplete(c *Ctx, rule string) {
+	r := c.R
+	var f *ssa.Function
+	for _, g := range c.P.MethodsNamed("sortedKeys") {
+		if pkgPathOf(g) == v4pkg {
+			f = g
+		}
+	}
+	key := func(s string) string { return "dhcpv4.Options.sortedKeys: " + s }
+	if f == nil {
+		r.Undecided(rule, key("function"), "-", "not found")
+		return
+	}
+	var next *ssa.Next
+	allInstrs(f, func(in ssa.Instruction) {
+		if nx, ok := in.(*ssa.Next); ok {
+			if rg, ok := nx.Iter.(*ssa.Range); ok {
+				if _, isMap := rg.X.Type().Underlying().(*types.Map); isMap {
+					next = nx
+				}
+			}
+		}
+	})
+	if next == nil {
+		r.Undecided(rule, key("map loop"), c.P.pos(f.Pos()), "no range over the option map")
+		return
+	}
+	loop := sccOf(next.Block())
+	var app *ssa.Call
+	var keyVal ssa.Value
+	for b := range loop {
+		for _, in := range b.Instrs {
+			if cl, ok := in.(*ssa.Call); ok && isBuiltinCall(cl.Common(), "append") {
+				_, el := appendedElem(cl)
+				if el == nil {
+					continue
+				}
+				kv := el
+				if cv, ok := kv.(*ssa.Convert); ok {
+					kv = cv.X
+				}
+				// the element must be the key extracted from this Next
+				if ex, ok := kv.(*ssa.Extract); ok && ex.Tuple == ssa.Value(next) && ex.Index == 1 {
+					app, keyVal = cl, kv
+				}
+			}
+		}
+	}
+	if app == nil {
+		r.Violation(rule, key("the loop appends the map key"), c.P.ipos(next), "no append of the iteration key inside the map loop")
+		return
+	}
+	// body entry: the successor of the Next block's `ok` test that stays in the loop
+	hdr := next.Block()
+	iff := ifOf(hdr)
+	if iff == nil {
+		r.Undecided(rule, key("loop test"), c.P.ipos(next), "the block of the iterator step does not end in the ok test")
+		return
+	}
+	var body *ssa.BasicBlock
+	for _, s := range hdr.Succs {
+		if loop[s] {
+			body = s
+		}
+	}
+	if body == nil {
+		r.Undecided(rule, key("loop body"), c.P.ipos(next), "no successor of the iterator test inside the loop")
+		return
+	}
+	removed := map[Edge]bool{}
+	var allowed []string
+	for b := range loop {
+		i2 := ifOf(b)
+		if i2 == nil {
+			continue
+		}
+		bo, ok := i2.Cond.(*ssa.BinOp)
+		if !ok || bo.X != keyVal {
+			continue
+		}
+		k, isK := intConst(bo.Y)
+		if !isK || (k != 82 && k != 255) {
+			continue
+		}
+		switch bo.Op {
+		case token.EQL:
+			removed[Edge{b, b.Succs[0]}] = true
+			allowed = append(allowed, fmt.Sprintf("key == %d", k))
+		case token.NEQ:
+			removed[Edge{b, b.Succs[1]}] = true
+			allowed = append(allowed, fmt.Sprintf("key == %d", k))
+		}
+	}
+	blocked := map[*ssa.BasicBlock]bool{app.Block(): true}
+	for b := range hdr.Parent().Blocks {
+		_ = b
+	}
+	// restrict to the loop: block everything outside
+	for _, b := range f.Blocks {
+		if !loop[b] {
+			blocked[b] = true
+		}
+	}
+	reach := reachFrom(body, removed, blocked)
+	r.Check(!reach[hdr] || body == app.Block() && false, rule, key("every key other than 82/255 reaches the collecting append"), c.P.ipos(app),
+		"no path from the loop body back to the iterator avoids the append except through key == 82 / key == 255 ("+strings.Join(allowed, ", ")+")",
+		"an iteration can return to the iterator without appending its key and without being option 82 or 255: some options (e.g. those selected by a test on the value) are silently left out of the encoding")
 }
